@@ -68,6 +68,35 @@ macro_rules! each {
     };
 }
 
+/// Items with the top bit set are offered as a composite key whose `Hash` impl makes three writes
+/// (u64, u64, a 3-byte tail): 19 bytes that cross a 16-byte block and end in a short tail.
+pub struct Composite(pub u64);
+
+impl Composite {
+    pub fn bytes(&self) -> Vec<u8> {
+        let a = self.0;
+        let b = self.0.rotate_left(17) ^ 0x5555_5555_5555_5555;
+        let mut v = a.to_le_bytes().to_vec();
+        v.extend_from_slice(&b.to_le_bytes());
+        v.extend_from_slice(&(self.0 >> 8).to_le_bytes()[..3]);
+        v
+    }
+}
+
+impl std::hash::Hash for Composite {
+    fn hash<H: std::hash::Hasher>(&self, state: &mut H) {
+        let v = self.bytes();
+        state.write_u64(u64::from_le_bytes(v[..8].try_into().unwrap()));
+        state.write_u64(u64::from_le_bytes(v[8..16].try_into().unwrap()));
+        state.write(&v[16..]);
+    }
+}
+
+/// the byte sequence an item feeds the hasher
+pub fn hashed_bytes(item: u64) -> Vec<u8> {
+    if item >> 63 == 1 { Composite(item).bytes() } else { item.to_le_bytes().to_vec() }
+}
+
 pub fn type_max(ty: u8) -> u64 {
     match ty % 8 {
         0 => u8::MAX as u64,
@@ -95,6 +124,19 @@ impl Cm {
         }
     }
     pub fn update(&mut self, item: u64, w: u64) {
+        if item >> 63 == 1 {
+            let key = Composite(item);
+            return match self {
+                Cm::U8(s) => s.update_with_weight(key, w as u8),
+                Cm::U16(s) => s.update_with_weight(key, w as u16),
+                Cm::U32(s) => s.update_with_weight(key, w as u32),
+                Cm::U64(s) => s.update_with_weight(key, w),
+                Cm::I8(s) => s.update_with_weight(key, w as i8),
+                Cm::I16(s) => s.update_with_weight(key, w as i16),
+                Cm::I32(s) => s.update_with_weight(key, w as i32),
+                Cm::I64(s) => s.update_with_weight(key, w as i64),
+            };
+        }
         match self {
             Cm::U8(s) => s.update_with_weight(item, w as u8),
             Cm::U16(s) => s.update_with_weight(item, w as u16),
@@ -121,12 +163,24 @@ impl Cm {
         }
     }
     pub fn estimate(&self, item: u64) -> u64 {
+        if item >> 63 == 1 {
+            let key = Composite(item);
+            return each!(self, s => s.estimate(&key) as u64);
+        }
         each!(self, s => s.estimate(item) as u64)
     }
     pub fn lower_bound(&self, item: u64) -> u64 {
+        if item >> 63 == 1 {
+            let key = Composite(item);
+            return each!(self, s => s.lower_bound(&key) as u64);
+        }
         each!(self, s => s.lower_bound(item) as u64)
     }
     pub fn upper_bound(&self, item: u64) -> u64 {
+        if item >> 63 == 1 {
+            let key = Composite(item);
+            return each!(self, s => s.upper_bound(&key) as u64);
+        }
         each!(self, s => s.upper_bound(item) as u64)
     }
     pub fn total(&self) -> u64 {
@@ -203,7 +257,7 @@ impl CmModel {
         self.row_seeds
             .iter()
             .enumerate()
-            .map(|(r, &rs)| r * self.buckets + (murmur3_x64_128(&item.to_le_bytes(), rs).0 % self.buckets as u64) as usize)
+            .map(|(r, &rs)| r * self.buckets + (murmur3_x64_128(&hashed_bytes(item), rs).0 % self.buckets as u64) as usize)
             .collect()
     }
     pub fn update(&mut self, item: u64, w: u64) {
